@@ -2,7 +2,7 @@
 
    script  input    (0 nw cap ((outcome gated) ...) (op ...))
                     op = (0) Execute a fresh task on a new goroutine | (1 t) open the gate of task t
-                       | (2) call Shutdown on a new goroutine
+                       | (2) call Shutdown on a new goroutine | (3 t ...) open several gates at once
            observed ((settled (status ...) (started ...) (ended ...) alive (shut ...)) ...)  one snapshot per op,
                     taken when every goroutine of the scenario is parked
                     status of an Execute call: 0 parked on the queue send, 1 nil, 2 error, 3 panic,
@@ -11,7 +11,8 @@
            each op and the snapshots are compared; the property is evaluated on the observed snapshots.
 
    conc    input    (1 nw cap ncalls ...)   (submissions from many goroutines, Shutdown from another one)
-           observed ((status ...) (early ...) (runs ...) (endedbefore ...) alive shutret)
+           observed ((status ...) (early ...) (runs ...) (endedbefore ...)
+                     (alive shutret inconclusive maxinflight workergoroutines orderok shutpending))
            No schedule is observable: only the property (the conclusions of the theorems) is evaluated. *)
 From Coq Require Import ZArith List Bool Arith.
 From FV Require Import Lib.Sx C18.Model.
@@ -23,12 +24,13 @@ Definition nat_of (s : sx) : option nat :=
 Definition nats_of (s : sx) : option (list nat) :=
   match s with SList l => map_opt nat_of l | _ => None end.
 
-Inductive op := OExec | ORelease (t : nat) | OShutdown.
+Inductive op := OExec | ORelease (t : nat) | OShutdown | OReleaseMany (ts : list nat).
 Definition op_of (s : sx) : option op :=
   match s with
   | SList [SInt 0%Z] => Some OExec
   | SList [SInt 1%Z; t] => match nat_of t with Some t => Some (ORelease t) | None => None end
   | SList [SInt 2%Z] => Some OShutdown
+  | SList (SInt 3%Z :: ts) => match map_opt nat_of ts with Some ts => Some (OReleaseMany ts) | None => None end
   | _ => None
   end.
 Definition kind_of (s : sx) : option (outcome * bool) :=
@@ -108,6 +110,7 @@ Section Drive.
     match o with
     | OExec => mkdrv (settle fuel (rel d) (step' oracle (ms d) Call)) (rel d) (wins d)
     | ORelease t => mkdrv (settle fuel (t :: rel d) (ms d)) (t :: rel d) (wins d)
+    | OReleaseMany ts => mkdrv (settle fuel (ts ++ rel d) (ms d)) (ts ++ rel d) (wins d)
     | OShutdown =>
         let win := phase_eqb (ph (ms d)) PRunning &&
                    match sh (ms d) with ShIdle => true | _ => false end in
@@ -184,9 +187,12 @@ Definition walk_one (n c : nat) (o : op) (b : snap) (prev : option snap)
  (vjoin (* ... nothing is running, all workers have exited *)
         (check_that (negb (returned b) || (Nat.eqb (alive b) 0 && subset (started b) (ended b))) (VPropFail 5))
         (* ... and nothing is started afterwards *)
-        (check_that (match prev with
+ (vjoin (check_that (match prev with
                      | Some p => negb (returned p) || nat_list_eqb (sort (started p)) (sort (started b))
-                     | None => true end) (VPropFail 5)))))))).
+                     | None => true end) (VPropFail 5))
+        (* Shutdown returns: the snapshot is quiescent (every goroutine parked), no task is running,
+           yet the Shutdown that won has not returned: nothing can ever move again *)
+        (check_that (before_shutdown || returned b || negb (subset (started b) (ended b))) (VPropFail 7))))))))).
 
 Fixpoint prop_walk (n c : nat) (ops : list op) (obs : list snap) (prev : option snap)
          (acc : option (list nat * nat)) (nsh : nat) (seen : bool) : verdict :=
@@ -218,7 +224,8 @@ Fixpoint zip3_all (f : nat -> nat -> nat -> bool) (a b c : list nat) : bool :=
   | _, _, _ => false
   end.
 
-Definition check_conc (st_ early runs endedb : list nat) (alive_ shutret inconclusive : nat) : verdict :=
+Definition check_conc (n : nat) (st_ early runs endedb : list nat)
+           (alive_ shutret inconclusive maxinf nworkers orderok shutpending : nat) : verdict :=
   if Nat.eqb inconclusive 1 then VOk else
   vjoin (check_that (forallb (fun r => Nat.leb r 1) runs) (VPropFail 2))
  (vjoin (check_that (negb (mem 4 st_)) (VPropFail 1))
@@ -228,7 +235,13 @@ Definition check_conc (st_ early runs endedb : list nat) (alive_ shutret inconcl
         (check_that (negb (Nat.eqb shutret 1)
                      || zip3_all (fun e r b => negb (Nat.eqb e 1) || (Nat.eqb r 1 && Nat.eqb b 1))
                                  early runs endedb) (VPropFail 2))
-        (check_that (negb (Nat.eqb shutret 1) || Nat.eqb alive_ 0) (VPropFail 5))))).
+ (vjoin (check_that (negb (Nat.eqb shutret 1) || Nat.eqb alive_ 0) (VPropFail 5))
+ (vjoin (* never more tasks in flight than workers, never more goroutines running tasks than workers *)
+        (check_that (Nat.leb maxinf n && Nat.leb nworkers n) (VPropFail 8))
+ (vjoin (* one worker: each submitter's tasks start in the order it submitted them *)
+        (check_that (negb (Nat.eqb n 1) || Nat.eqb orderok 1) (VPropFail 3))
+        (* Shutdown of a running executor parked for good (all goroutines parked, tasks cannot block) *)
+        (check_that (negb (Nat.eqb shutpending 1)) (VPropFail 7)))))))).
 
 Definition check (c : sx) : verdict :=
   match c with
@@ -240,10 +253,11 @@ Definition check (c : sx) : verdict :=
                 (compare ks n (mkdrv (init n cp) [] []) os obs)
       | _, _, _, _, _ => VBad
       end
-  | SList [SList (SInt 1%Z :: _); SList [a; b; c'; d; e; f; g]] =>
-      match nats_of a, nats_of b, nats_of c', nats_of d, nat_of e, nat_of f, nat_of g with
-      | Some a, Some b, Some c', Some d, Some e, Some f, Some g => check_conc a b c' d e f g
-      | _, _, _, _, _, _, _ => VBad
+  | SList [SList (SInt 1%Z :: n :: _); SList [a; b; c'; d; SList rest]] =>
+      match nat_of n, nats_of a, nats_of b, nats_of c', nats_of d, map_opt nat_of rest with
+      | Some n, Some a, Some b, Some c', Some d, Some [e; f; g; h; i; j; k] =>
+          check_conc (Nat.max 1 n) a b c' d e f g h i j k
+      | _, _, _, _, _, _ => VBad
       end
   | _ => VBad
   end.
